@@ -97,6 +97,17 @@ Print Assumptions C07_contract_tree_checked_partial.
      forall n s r, WF n -> contract_tree n data s = Some r -> check_root n (r_tree r) (r_amap r) = true
    for every scaffold s that is a binary bracketing of the real tensors. *)
 
+(* (c) "Re-ordering a node's axes in a contraction tree does not change the result" - NOT proved as a
+   universal theorem.  Full statement: for every tree t with distinct output labels per node and
+   consistent label dimensions, every path to an inner node and every permutation p of that node's axes,
+     permute_axes t path p = Some t' ->
+     tree_eval n data t' = tree_eval n data t              (path <> [], pointwise)
+     tree_eval n data t' = transpose p (tree_eval n data t) (path = [], the root).
+   What IS established: the port of permute_axes is compared exactly with the implementation (CPerm),
+   every permuted tree of the run is re-submitted to the verified checker (CChk ... true, hence
+   C07_checked_tree_is_defining_sum applies to it: same dense tensor), and the implementation oracle
+   contracts the permuted tree (also repeatedly with one dictionary, checks/C07.py probe_history). *)
+
 (** strategy independence, as far as it is proved: a checked tree and the single shot agree *)
 Theorem C07_tree_equals_einsum_when_checked :
   forall (K : Scalar) (L : ScalarLaws K) (n : net) (data : Z -> list nat -> K) s r v am x shp,
